@@ -170,6 +170,11 @@ def run(ctx):
     directed.append(["Open", "Enable 1", SC, SZ, S1, "Add 1 %d %s 0 7" % (FORMAT, T("x,z")), SC, SZ, S1, "Open", "Enable 2",
                      "Add 2 %d %s 0 7" % (FORMAT, T("z")), "TagSet 3 %d %s 0 7" % (FORMAT, T("x,z")), SC, SZ, S1,
                      "Remove 1 %d %s 0 7" % (FORMAT, T("x,z")), SC, SZ, S1, "TagClear %d %s 0 7" % (FORMAT, T("x,z")), SC, SZ, S1])
+    # call sites that pass a tag of their own (line 105 = own tag 5) keep it whatever rules exist, whenever they first ran
+    OA = "Log %s %s 105 4 %s" % (T("a.c"), T("f"), T("xyz"))
+    OB = "Log %s %s 107 4 %s" % (T("b.c"), T("g"), T("xyz"))
+    directed.append(["Open", "Enable 1", "Add 1 %d %s 0 7" % (FILE, T("*")), OA, "TagSet 3 %d %s 0 7" % (FORMAT, T("xyz")), OA, OB, S1,
+                     "TagClear %d %s 0 7" % (FORMAT, T("xyz")), OA, OB, S1, "TagSet 2 %d %s 0 7" % (FILE, T("*")), OA, OB, S1])
     hs += [[ln.split() for ln in sc] for sc in directed]
     ctx.exec_validate(exe, hs, to_lines, "LogRouteTrace.tla", trace_cfg(ctx), label="c12", nshards=4 * min(jobs, 4))
     # (4) threaded targets: with the logging thread started and TWO threaded targets selected by the same call sites, each
